@@ -1,9 +1,4 @@
-"""Per-property configuration of ./check (what to regenerate, which theorems, which engines)."""
-
-COMMON_TRUST = [
-    "correspondence harness /verif/harness (generators, canonicalisation) links /repo with -tags verif",
-    "Lean compiler for *running* the model in the driver (not for the theorems)",
-]
+from props import COMMON_TRUST
 
 
 def router_nontrivial(tok, res):
@@ -14,8 +9,7 @@ def router_nontrivial(tok, res):
     return False
 
 
-PROPS = {
-    "C06": {
+PROP = {
         "level": "proof",
         "gens": [],
         "theorems": [
@@ -41,5 +35,12 @@ PROPS = {
             "strings.ToLower is modelled for ASCII only; non-ASCII hosts are counted and skipped",
             "keep-alive reuse of pooled backend connections is not covered by the router model",
         ],
-    },
-}
+    }
+
+META = {
+        "engine": "lean+harness(router)",
+        "design_ref": "DESIGN.md §6 C06",
+        "technique": "Lean 4 invariant + refinement-to-spec proof over all add/del histories; differential correspondence with the real vhost.Routers / getVhost / Muxer.getListener",
+        "text": "Proof: for every reachable route table (any history of registrations/removals) and every host, path, user, the modelled lookup returns a registered matching route that is at least as specific (host pattern, then user restriction, then location length) as every other registered matching route, and none iff nothing matches; duplicates are refused leaving the table unchanged; removal affects only the removed triple. Kernel-checked, axioms propext/Classical.choice/Quot.sound only. The model is hand-written and tied to the code by replaying 20k (quick) generated operations per run on the real Routers/HTTPReverseProxy/Muxer and on the model, with the Lean property predicate evaluated on the implementation's own answers.",
+        "note": "Trusted: Lean kernel; the hand-written model of router.go/getVhost/getListener/CanonicalHost and the correspondence harness generators (ASCII hosts; non-ASCII skipped and counted). Not covered by the theorem: reuse of pooled keep-alive backend connections across re-registration (net/http Transport), the golib mux dispatch when the vhost port is shared with the control port.",
+    }
